@@ -297,6 +297,10 @@ pub fn build<S: Inner>(mw: Mw, mode: Mode, inner: S, ls: Option<Arc<Listeners>>)
                 Mode::MultiplyAlt => ReconnectConfig::builder().policy(ReconnectPolicy::fixed(Duration::ZERO)).max_attempts(2).build(),
                 Mode::Extreme => ReconnectConfig::builder().policy(ReconnectPolicy::fixed(Duration::MAX)).max_attempts(u32::MAX).reconnect_predicate(|_e: &dyn std::error::Error| false).build(),
             };
+            // (ReconnectConfig's Clone is written by hand: the configurations with a predicate go
+            // through a clone of the configuration, as an application configuring two backends
+            // from one template does)
+            let cfg = if matches!(mode, Mode::Plain | Mode::Extreme) { cfg.clone() } else { cfg };
             erase(ReconnectLayer::new(cfg).layer(inner), |e| map_std_err(e, &["service error", "max reconnection attempts", "connection failed"]))
         }
         Mw::Adaptive => {
